@@ -159,7 +159,8 @@ static ares_status_t init_by_defaults(ares_channel_t *channel)
 
     rc = ares_sconfig_append(channel, &sconfig, &addr, 0, 0, NULL);
     if (rc != ARES_SUCCESS) {
-      goto error; /* LCOV_EXCL_LINE: OutOfMemory */
+      ares_llist_destroy(sconfig); /* LCOV_EXCL_LINE: OutOfMemory */
+      goto error;                  /* LCOV_EXCL_LINE: OutOfMemory */
     }
 
     rc = ares_servers_update(channel, sconfig, ARES_FALSE);
